@@ -152,17 +152,31 @@ Definition set_cur_of c v :=
   match c with KCompound p t _ => KCompound p t v | KAmount n _ => KAmount n v | KCurrency _ => KCurrency v | x => x end.
 Definition set_num_of c v := match c with KAmount _ cu => KAmount v cu | KNumber _ => KNumber v | x => x end.
 
-Definition raw_set_number_per (s : cost) (v : option Z) : cost * res unit :=
+(* A raw setter receives a node.  [att] = the node is attached elsewhere (its detach() raises
+   ValueError "Cannot reuse node"); it is meaningless when v = None.  The statement that consumes the
+   node (from_children / child-property assignment / component assignment, each of which detaches it
+   before touching anything: internal/properties.py replace_node, _check_detachable, fields) is where
+   the refusal happens.  [late] = the statement order before fixes/costspec-raw-setter-atomic.patch:
+   the braces were flipped first, then the node consumed. *)
+Definition refuse_if (att : bool) (s : cost) (k : cost * res unit) : cost * res unit :=
+  if att then (s, Err ValueError) else k.
+
+Definition raw_set_number_per_gen (late att : bool) (s : cost) (v : option Z) : cost * res unit :=
   match compound_comp s with
   | Some _ =>                                    (* compound_amount.raw_number_per = value *)
-    (with_comps s (upd_first is_compound (fun c => set_per_of c v) (c_comps s)), Ok tt)
+    match v with
+    | Some _ => refuse_if att s
+        (with_comps s (upd_first is_compound (fun c => set_per_of c v) (c_comps s)), Ok tt)
+    | None => (with_comps s (upd_first is_compound (fun c => set_per_of c v) (c_comps s)), Ok tt)
+    end
   | None =>
     match c_brace s with
     | Unit =>
       match amount_comp s with
       | Some (KAmount n cu) =>
         match v with
-        | Some x => (with_comps s (upd_first is_amount (fun c => set_num_of c x) (c_comps s)), Ok tt)
+        | Some x => refuse_if att s
+            (with_comps s (upd_first is_amount (fun c => set_num_of c x) (c_comps s)), Ok tt)
         | None =>
           let s1 := set_currency_comp s (Some (KCurrency cu)) in
           let s2 := set_amount_comp s1 None in
@@ -172,10 +186,12 @@ Definition raw_set_number_per (s : cost) (v : option Z) : cost * res unit :=
       | None =>
         match currency_comp s, v with
         | Some (KCurrency cu), Some x =>
-          let s1 := set_amount_comp s (Some (KAmount x cu)) in
-          let s2 := set_currency_comp s1 None in
-          (s2, Ok tt)
-        | _, _ => (set_number_comp s (option_map KNumber v), Ok tt)
+          refuse_if att s                        (* Amount.from_children(value, ...) *)
+            (let s1 := set_amount_comp s (Some (KAmount x cu)) in
+             let s2 := set_currency_comp s1 None in
+             (s2, Ok tt))
+        | _, Some x => refuse_if att s (set_number_comp s (Some (KNumber x)), Ok tt)
+        | _, None => (set_number_comp s None, Ok tt)
         end
       end
     | Total =>
@@ -184,25 +200,46 @@ Definition raw_set_number_per (s : cost) (v : option Z) : cost * res unit :=
       | Some x =>
         match amount_comp s with
         | Some (KAmount n cu) =>
-          let s1 := into_unit_cost s in
-          let s2 := set_compound_comp s1 (Some (KCompound (Some x) (Some n) cu)) in
-          let s3 := set_amount_comp s2 None in
-          (s3, Ok tt)
+          if late then
+            let s1 := into_unit_cost s in
+            refuse_if att s1
+              (let s2 := set_compound_comp s1 (Some (KCompound (Some x) (Some n) cu)) in
+               let s3 := set_amount_comp s2 None in
+               (s3, Ok tt))
+          else
+            refuse_if att s                      (* CompoundAmount.from_children(value, ...) *)
+              (let s1 := into_unit_cost s in
+               let s2 := set_compound_comp s1 (Some (KCompound (Some x) (Some n) cu)) in
+               let s3 := set_amount_comp s2 None in
+               (s3, Ok tt))
         | Some _ => (s, Err ModelStuck)
         | None =>
           match currency_comp s with
           | Some (KCurrency cu) =>
-            let s1 := into_unit_cost s in
-            let s2 := set_amount_comp s1 (Some (KAmount x cu)) in
-            let s3 := set_currency_comp s2 None in
-            (s3, Ok tt)
+            if late then
+              let s1 := into_unit_cost s in
+              refuse_if att s1
+                (let s2 := set_amount_comp s1 (Some (KAmount x cu)) in
+                 let s3 := set_currency_comp s2 None in
+                 (s3, Ok tt))
+            else
+              refuse_if att s                    (* Amount.from_children(value, ...) *)
+                (let s1 := into_unit_cost s in
+                 let s2 := set_amount_comp s1 (Some (KAmount x cu)) in
+                 let s3 := set_currency_comp s2 None in
+                 (s3, Ok tt))
           | Some _ => (s, Err ModelStuck)
           | None =>
             match number_comp s with
             | Some _ => (s, Err ValueError)
             | None =>
-              let s1 := into_unit_cost s in
-              (set_number_comp s1 (Some (KNumber x)), Ok tt)
+              if late then
+                let s1 := into_unit_cost s in
+                refuse_if att s1 (set_number_comp s1 (Some (KNumber x)), Ok tt)
+              else
+                refuse_if att s                  (* self.raw_number_comp = value *)
+                  (let s1 := set_number_comp s (Some (KNumber x)) in
+                   (into_unit_cost s1, Ok tt))
             end
           end
         end
@@ -210,17 +247,22 @@ Definition raw_set_number_per (s : cost) (v : option Z) : cost * res unit :=
     end
   end.
 
-Definition raw_set_number_total (s : cost) (v : option Z) : cost * res unit :=
+Definition raw_set_number_total_gen (late att : bool) (s : cost) (v : option Z) : cost * res unit :=
   match compound_comp s with
   | Some _ =>
-    (with_comps s (upd_first is_compound (fun c => set_total_of c v) (c_comps s)), Ok tt)
+    match v with
+    | Some _ => refuse_if att s
+        (with_comps s (upd_first is_compound (fun c => set_total_of c v) (c_comps s)), Ok tt)
+    | None => (with_comps s (upd_first is_compound (fun c => set_total_of c v) (c_comps s)), Ok tt)
+    end
   | None =>
     match c_brace s with
     | Total =>
       match amount_comp s with
       | Some (KAmount n cu) =>
         match v with
-        | Some x => (with_comps s (upd_first is_amount (fun c => set_num_of c x) (c_comps s)), Ok tt)
+        | Some x => refuse_if att s
+            (with_comps s (upd_first is_amount (fun c => set_num_of c x) (c_comps s)), Ok tt)
         | None =>
           let s1 := set_currency_comp s (Some (KCurrency cu)) in
           let s2 := set_amount_comp s1 None in
@@ -230,10 +272,12 @@ Definition raw_set_number_total (s : cost) (v : option Z) : cost * res unit :=
       | None =>
         match currency_comp s, v with
         | Some (KCurrency cu), Some x =>
-          let s1 := set_amount_comp s (Some (KAmount x cu)) in
-          let s2 := set_currency_comp s1 None in
-          (s2, Ok tt)
-        | _, _ => (set_number_comp s (option_map KNumber v), Ok tt)
+          refuse_if att s
+            (let s1 := set_amount_comp s (Some (KAmount x cu)) in
+             let s2 := set_currency_comp s1 None in
+             (s2, Ok tt))
+        | _, Some x => refuse_if att s (set_number_comp s (Some (KNumber x)), Ok tt)
+        | _, None => (set_number_comp s None, Ok tt)
         end
       end
     | Unit =>
@@ -242,24 +286,38 @@ Definition raw_set_number_total (s : cost) (v : option Z) : cost * res unit :=
       | Some x =>
         match amount_comp s with
         | Some (KAmount n cu) =>                 (* no brace change: the compound lives in {} *)
-          let s1 := set_compound_comp s (Some (KCompound (Some n) (Some x) cu)) in
-          let s2 := set_amount_comp s1 None in
-          (s2, Ok tt)
+          refuse_if att s
+            (let s1 := set_compound_comp s (Some (KCompound (Some n) (Some x) cu)) in
+             let s2 := set_amount_comp s1 None in
+             (s2, Ok tt))
         | Some _ => (s, Err ModelStuck)
         | None =>
           match currency_comp s with
           | Some (KCurrency cu) =>
-            let s1 := into_total_cost s in
-            let s2 := set_amount_comp s1 (Some (KAmount x cu)) in
-            let s3 := set_currency_comp s2 None in
-            (s3, Ok tt)
+            if late then
+              let s1 := into_total_cost s in
+              refuse_if att s1
+                (let s2 := set_amount_comp s1 (Some (KAmount x cu)) in
+                 let s3 := set_currency_comp s2 None in
+                 (s3, Ok tt))
+            else
+              refuse_if att s
+                (let s1 := into_total_cost s in
+                 let s2 := set_amount_comp s1 (Some (KAmount x cu)) in
+                 let s3 := set_currency_comp s2 None in
+                 (s3, Ok tt))
           | Some _ => (s, Err ModelStuck)
           | None =>
             match number_comp s with
             | Some _ => (s, Err ValueError)
             | None =>
-              let s1 := into_total_cost s in
-              (set_number_comp s1 (Some (KNumber x)), Ok tt)
+              if late then
+                let s1 := into_total_cost s in
+                refuse_if att s1 (set_number_comp s1 (Some (KNumber x)), Ok tt)
+              else
+                refuse_if att s
+                  (let s1 := set_number_comp s (Some (KNumber x)) in
+                   (into_total_cost s1, Ok tt))
             end
           end
         end
@@ -267,14 +325,18 @@ Definition raw_set_number_total (s : cost) (v : option Z) : cost * res unit :=
     end
   end.
 
+Definition raw_set_number_per := raw_set_number_per_gen false false.
+Definition raw_set_number_total := raw_set_number_total_gen false false.
+
 (* The branch marked (D11) is the repaired code (fixes/costspec-currency-onto-number.patch):
    Number + Currency -> Amount, the mirror image of "Currency + Number -> Amount" in the number
    setters.  [fixed] = false is the code before the repair (the plain `raw_currency_comp = value`). *)
-Definition raw_set_currency_gen (fixed : bool) (s : cost) (v : option Z) : cost * res unit :=
+Definition raw_set_currency_gen (fixed att : bool) (s : cost) (v : option Z) : cost * res unit :=
   match compound_comp s with
   | Some (KCompound p t cu) =>
     match v with
-    | Some x => (with_comps s (upd_first is_compound (fun c => set_cur_of c x) (c_comps s)), Ok tt)
+    | Some x => refuse_if att s
+        (with_comps s (upd_first is_compound (fun c => set_cur_of c x) (c_comps s)), Ok tt)
     | None =>
       match p, t, c_brace s with
       | Some a, None, Unit =>
@@ -300,7 +362,8 @@ Definition raw_set_currency_gen (fixed : bool) (s : cost) (v : option Z) : cost 
     match amount_comp s with
     | Some (KAmount n cu) =>
       match v with
-      | Some x => (with_comps s (upd_first is_amount (fun c => set_cur_of c x) (c_comps s)), Ok tt)
+      | Some x => refuse_if att s
+          (with_comps s (upd_first is_amount (fun c => set_cur_of c x) (c_comps s)), Ok tt)
       | None =>
         let s1 := set_number_comp s (Some (KNumber n)) in
         (set_amount_comp s1 None, Ok tt)
@@ -309,14 +372,16 @@ Definition raw_set_currency_gen (fixed : bool) (s : cost) (v : option Z) : cost 
     | None =>
       match (if fixed then number_comp s else None), v with
       | Some (KNumber n), Some x =>                                     (* (D11) *)
-        let s1 := set_amount_comp s (Some (KAmount n x)) in
-        (set_number_comp s1 None, Ok tt)
-      | _, _ => (set_currency_comp s (option_map KCurrency v), Ok tt)
+        refuse_if att s                          (* Amount.from_children(copy(number), value) *)
+          (let s1 := set_amount_comp s (Some (KAmount n x)) in
+           (set_number_comp s1 None, Ok tt))
+      | _, Some x => refuse_if att s (set_currency_comp s (Some (KCurrency x)), Ok tt)
+      | _, None => (set_currency_comp s None, Ok tt)
       end
     end
   end.
 
-Definition raw_set_currency := raw_set_currency_gen true.
+Definition raw_set_currency := raw_set_currency_gen true false.
 
 (* ---- value-level properties (optional_decimal/string/date_property.__set__) ---------------
    current = raw getter; if both current and value are present: current.value = value (in place,
@@ -366,7 +431,7 @@ Definition set_number_total (s : cost) (v : option Z) : cost * res unit :=
 Definition set_currency_gen (fixed : bool) (s : cost) (v : option Z) : cost * res unit :=
   match raw_currency s, v with
   | Some _, Some x => (inplace_currency s x, Ok tt)
-  | _, _ => raw_set_currency_gen fixed s v
+  | _, _ => raw_set_currency_gen fixed false s v
   end.
 Definition set_currency := set_currency_gen true.
 
@@ -433,6 +498,19 @@ Definition apply_gen (fixed : bool) (s : cost) (o : cop) : cost * res unit :=
   | OMerge v => set_merge s v
   end.
 Definition apply := apply_gen true.
+
+(* raw-level assignments (`cost.raw_number_per = node` ...): which setter, the node's value, and
+   whether the node is attached elsewhere *)
+Inductive rop := RPer | RTotal | RCur.
+Definition rapply_gen (fixed late : bool) (s : cost) (r : rop) (v : option Z) (att : bool) : cost * res unit :=
+  match r with
+  | RPer => raw_set_number_per_gen late att s v
+  | RTotal => raw_set_number_total_gen late att s v
+  | RCur => raw_set_currency_gen fixed att s v
+  end.
+Definition rapply := rapply_gen true false.
+Definition cop_of (r : rop) (v : option Z) : cop :=
+  match r with RPer => OPer v | RTotal => OTotal v | RCur => OCur v end.
 
 (* a whole assignment sequence, as a Python program would run it: a refused assignment raises,
    the caller catches it and goes on (results collected in order) *)
